@@ -941,8 +941,11 @@ class ImpEqToMacro(Macro):
                 disjs.append(Not(arg))
 
         pt = prevs[0]
-        for disj in reversed(disjs):
+        for arg, disj in reversed(list(zip(args[:-1], disjs))):
             pt = pt.implies_intr(disj).on_prop(rewr_conv('imp_disj_eq'))
+            if not arg.is_not():
+                # discharged ~arg: the new literal is ~~arg, the clause has arg
+                pt = pt.on_prop(arg1_conv(rewr_conv('double_neg')))
         return pt
 
 
